@@ -423,6 +423,8 @@ def check_suspension(ctx, f, s_p, qmap, admissibility_only=False):
             cv = a.args[0].id
             # guards are evaluated where the selection is decided: at the first statement of the selecting block
             fa = g.facts_at(poolmod.block_of(poolmod.stmt_of(a))[0])
+            src, elem_facts = _container_source_facts(f, g, a, cv, s_p)
+            fa = set(fa) | elem_facts          # what the filter of the generator it was drawn from says about the candidate
             can = norm.entails(fa, ("truth", f"{cv}.can_suspend_container()", True))
             notq = norm.entails(fa, norm.mk_cmp("!=", "Priority.QUERY", f"{cv}.priority"))
             # at most one per waiting query job: a counter below len(qry_jobs)
@@ -443,7 +445,6 @@ def check_suspension(ctx, f, s_p, qmap, admissibility_only=False):
                         inits = [n for n in own_nodes(f.node) if isinstance(n, ast.Assign) and any(norm.is_name(t, cnt) for t in n.targets)]
                         bound = len(incs) == 1 and len(inits) == 1 and isinstance(inits[0].value, ast.Constant) and inits[0].value.value == 0
             # the container comes from some pool's active list
-            src = _container_source(f, g, a, cv, s_p)
             ctx.ob(6, "K2", "a container is selected only if it reports can_suspend_container() (operator boundary)", can, f, a, construct="guard: can_suspend_container()",
                    detail=f"facts: {sorted(norm.show(x) for x in fa)}")
             if not admissibility_only:
@@ -542,31 +543,63 @@ def _len_still_current(f, g, d: ast.stmt, use: ast.AST, qry: str) -> bool:
 
 
 def _container_source(f, g, at, cv: str, s_p: str) -> bool:
-    """cv is bound by next(iters[..]) where iters = [iter(pools[i].active_containers) for i in range(num_pools)], or by a for loop over active_containers."""
+    return _container_source_facts(f, g, at, cv, s_p)[0]
+
+
+def _container_source_facts(f, g, at, cv: str, s_p: str):
+    """cv is bound by next(iters[..][, default]) where iters = [iter(pools[i].active_containers) for i in range(num_pools)] — or a filtered generator
+    `(c for c in pools[i].active_containers if COND)` in place of iter(..) — or by a for loop over active_containers.
+    -> (ok, what the filters say about every element drawn)"""
+    extra = set()
     defs = [n for n in own_nodes(f.node) if isinstance(n, ast.Assign) and any(norm.is_name(t, cv) for t in n.targets)]
     if not defs:
         lp = enclosing_for(at, f.node)
         while lp is not None:
             if isinstance(lp.target, ast.Name) and lp.target.id == cv and norm.U(lp.iter).endswith(".active_containers"):
-                return True
+                return True, extra
             lp = enclosing_for(lp, f.node)
-        return False
+        return False, extra
     ok = True
+    first = True
     for d in defs:
         v = d.value
-        if not (isinstance(v, ast.Call) and norm.is_name(v.func, "next") and len(v.args) == 1 and isinstance(v.args[0], ast.Subscript) and isinstance(v.args[0].value, ast.Name)):
+        drawn = set()
+        if isinstance(v, ast.Call) and norm.is_name(v.func, "next") and len(v.args) in (1, 2) and isinstance(v.args[0], ast.GeneratorExp) and len(v.args[0].generators) == 1 \
+                and isinstance(v.args[0].generators[0].target, ast.Name) and norm.is_name(v.args[0].elt, v.args[0].generators[0].target.id):
+            # next((c for c in iters[i] if COND), None): draws from iters[i] until COND holds
+            ge = v.args[0]
+            for cond in ge.generators[0].ifs:
+                drawn |= set(norm.atoms_true(norm.nnf(norm.Subst({ge.generators[0].target.id: ast.Name(id=cv, ctx=ast.Load())}).visit(norm.clone(cond)))))
+            v = ast.Call(func=v.func, args=[ge.generators[0].iter] + v.args[1:], keywords=v.keywords)
+        if not (isinstance(v, ast.Call) and norm.is_name(v.func, "next") and len(v.args) in (1, 2) and isinstance(v.args[0], ast.Subscript) and isinstance(v.args[0].value, ast.Name)
+                and (len(v.args) == 1 or (isinstance(v.args[1], ast.Constant) and v.args[1].value is None)) and not v.keywords):
             ok = False
             continue
         its = v.args[0].value.id
         idef = [n for n in own_nodes(f.node) if isinstance(n, ast.Assign) and any(norm.is_name(t, its) for t in n.targets)]
-        if not (len(idef) == 1 and isinstance(idef[0].value, ast.ListComp) and len(idef[0].value.generators) == 1):
+        if not (len(idef) == 1 and isinstance(idef[0].value, ast.ListComp) and len(idef[0].value.generators) == 1 and not idef[0].value.generators[0].ifs):
             ok = False
             continue
         lc = idef[0].value
         iv = lc.generators[0].target.id if isinstance(lc.generators[0].target, ast.Name) else "?"
-        if not (norm.U(lc.elt) == f"iter({s_p}.executor.pools[{iv}].active_containers)" and norm.U(norm.subst(lc.generators[0].iter, single_defs(f))) == f"range({s_p}.executor.num_pools)"):
+        if norm.U(norm.subst(lc.generators[0].iter, single_defs(f))) != f"range({s_p}.executor.num_pools)":
             ok = False
-    return ok
+            continue
+        here = set()
+        if norm.U(lc.elt) == f"iter({s_p}.executor.pools[{iv}].active_containers)":
+            pass
+        elif isinstance(lc.elt, ast.GeneratorExp) and len(lc.elt.generators) == 1 and isinstance(lc.elt.generators[0].target, ast.Name) \
+                and norm.is_name(lc.elt.elt, lc.elt.generators[0].target.id) and norm.U(lc.elt.generators[0].iter) == f"{s_p}.executor.pools[{iv}].active_containers":
+            ev = lc.elt.generators[0].target.id
+            for cond in lc.elt.generators[0].ifs:
+                here |= set(norm.atoms_true(norm.nnf(norm.Subst({ev: ast.Name(id=cv, ctx=ast.Load())}).visit(norm.clone(cond)))))
+        else:
+            ok = False
+            continue
+        here |= drawn
+        extra = here if first else (extra & here)
+        first = False
+    return ok, (extra if ok else set())
 
 
 def check_priority_pool_order(ctx):
